@@ -108,3 +108,15 @@ func (w *WaitGroup) Wait() {
 
 // Once mirrors sync.Once (no scheduling point; the code under test does not use it concurrently).
 type Once = sync.Once
+
+// Types without a blocking behaviour of their own are the real ones (their internal synchronisation is real, so
+// the race detector sees it; they add no scheduling points).
+type (
+	Map    = sync.Map
+	Pool   = sync.Pool
+	Locker = sync.Locker
+)
+
+func OnceFunc(f func()) func()                                 { return sync.OnceFunc(f) }
+func OnceValue[T any](f func() T) func() T                     { return sync.OnceValue(f) }
+func OnceValues[T1, T2 any](f func() (T1, T2)) func() (T1, T2) { return sync.OnceValues(f) }
